@@ -354,6 +354,24 @@ def direct_clauses(pid, bench, ta, a, tb, b):
                 if len(set(map(str, ms))) != 1:
                     yield ("membership changes under print+parse / double inversion",
                            {"version": tx, "range": str(rc), "membership": ms})
+        if pid in ("C13", "C17") and x is a:
+            # the same two constraints given in either order
+            for c, d in ((">=", "<"), ("=", "="), ("!=", ">"), ("<=", ">")):
+                try:
+                    r1 = R(constraints=[mk(c, x), mk(d, y)])
+                    r2 = R(constraints=[mk(d, y), mk(c, x)])
+                    t1, t2 = str(r1), str(r2)
+                except Exception as e:  # noqa: BLE001
+                    yield ("building or printing a range of two constraints raises", {"constraints": [c + tx, d + ty], "error": exc_name(e)})
+                    continue
+                if t1 != t2 or not (r1 == r2):
+                    yield ("two constraints given in either order do not give equal ranges with the same text",
+                           {"constraints": [c + tx, d + ty], "text_one_order": t1, "text_other_order": t2})
+                elif pid == "C17":
+                    ms = [(_mem(r1, k), _mem(r2, k)) for k in (x, y)]
+                    if any(p != q for p, q in ms):
+                        yield ("membership depends on the order in which two constraints were given",
+                               {"constraints": [c + tx, d + ty], "membership": ms})
         if pid == "C10":
             for c in (">=", "<=", "!="):
                 r = R(constraints=[mk(c, y)])
